@@ -124,9 +124,11 @@ class SnapshotActionContext(FrameCollectorContext, ActionContext):
         log_msg = self.log_msg
         if log_msg is not None:
             # create and process the log message
-            context = LogActionContext(self.trigger_context, LocationAction(self.location_action.id, None, {
-                LOG_MSG: log_msg,
-            }, LocationAction.ActionType.Log))
+            # the log fields are collected into this snapshot, so the same limits apply to them
+            log_config = {key: value for key, value in self.location_action.config.items() if key.startswith('MAX_')}
+            log_config[LOG_MSG] = log_msg
+            context = LogActionContext(self.trigger_context, LocationAction(self.location_action.id, None, log_config,
+                                                                            LocationAction.ActionType.Log))
             # the log fields are recorded on this snapshot, so they have to share its ids
             context.var_cache = self.var_cache
             log, watches, log_vars = context.process_log(log_msg)
